@@ -17,6 +17,8 @@ impl RequestId {
     pub fn get_next(&mut self) -> i64 {
         let mut rng = rand::rng();
         let x: i64 = rng.random();
+        #[cfg(feature = "verif")]
+        let x = crate::verif::rng_override(x as u64) as i64;
         self.0 = x & MAX_REQUEST_ID;
         self.0
     }
